@@ -1,5 +1,5 @@
 """C18 — stream and file hashing fail closed under I/O faults (error-flow discipline on MIR)."""
-from ..rules import errflow, generator as gen, summary
+from ..rules import errflow, generator as gen, summary, beliefs
 
 EXPL = ("Decides, on every CFG path of hash_stream_common / hash_stream / hash_file: every Result-returning call (read, finalize, "
         "File::open, metadata, set_fixed_input_size, hash_stream_common) is consumed by `?` whose Break arm returns exactly that "
@@ -25,4 +25,6 @@ def run(ctx):
         ctx.guard("C18", "finalize-delegate", lambda: gen.finalizers_delegate(ctx, prog))
         ctx.guard("C18", "summaries", lambda: summary.check(ctx, prog, 'generate_easy_std::|GeneratorError', floor=2))
         ctx.guard("C18", "path summaries", lambda: summary.check_paths(ctx, prog, 'generate_easy_std::|GeneratorError', floor=1))
+        if c in ("dbg", "unsafe_dbg", "strict_dbg"):
+            ctx.guard("C18", "beliefs", lambda: beliefs.census(ctx, prog, beliefs.SCOPES["C18"][0], floor=beliefs.SCOPES["C18"][1]))
     return ctx.finish(EXPL, ["std::io::Read::read contract: Ok(n) implies n <= buf.len() and n bytes were written", "File::metadata().len() is the size the property calls 'reported by its metadata'"])
